@@ -6,7 +6,7 @@
    scheduled before done is closed).  [reach pd progs script cfok c]: c is reached from the
    initial configuration by some schedule; pd = false is the repaired code.
    Only statements, [exact], Print Assumptions, examples. *)
-From FF Require Import model.Bytes model.Lts model.WsConn model.WsConnSpec proofs.WsConn_Proofs.
+From FF Require Import model.Bytes model.Lts model.WsConn model.WsConnSpec proofs.WsConn_Proofs proofs.WsConn_Handled.
 Close Scope N_scope.
 Open Scope nat_scope.
 
@@ -105,6 +105,28 @@ Theorem C15_listen_code : forall m,
   (listen_code m = 5%N <-> m = MNetErr \/ m = MErrClosed \/ exists c, m = MCloseErr c /\ c <> 1000%N).
 Proof. exact listen_code_spec. Qed.
 Print Assumptions C15_listen_code.
+
+(* "Listen returns once the connection is closed": a Listen call that returns an error (5), or whose
+   handler has dealt with any error message (normal closure included), returns on a connection that
+   already reports Closed() and keeps doing so -- the default handler closes before it returns the
+   error.  (This is what the websocket client composes with: C17's reader ends with an error on a
+   connection that is closed.) *)
+Theorem C15_listen_error_on_closed_connection : forall pd progs script cfok c t c' e l l' r,
+  reach pd progs script cfok c ->
+  ws_step pd c t = Some (c', e) -> nth_error (thr c) t = Some l -> nth_error (thr c') t = Some l' ->
+  wl_pc l = QLRecv r -> wl_pc l' = QIdle ->
+  (r = 5%N \/ is_err_msg (wl_hmsg l) = true) ->
+  f_open (w_flags (glob c)) = false /\ f_open (w_flags (glob c')) = false.
+Proof. exact listen_error_closed. Qed.
+Print Assumptions C15_listen_error_on_closed_connection.
+
+(* ... and at every moment: a thread whose handler has met an error message and is past the gate of
+   its inline Close sees Closed() *)
+Theorem C15_handled_error_means_closed : forall pd progs script cfok c t l,
+  reach pd progs script cfok c -> nth_error (thr c) t = Some l ->
+  is_err_msg (wl_hmsg l) = true -> wl_pc l <> QGate true -> f_open (w_flags (glob c)) = false.
+Proof. intros pd progs script cfok c t l R N. exact (proj1 (handled_error_closed pd progs script cfok c t l R N)). Qed.
+Print Assumptions C15_handled_error_means_closed.
 
 (* no sequence of Listen / Close / Write calls panics ... *)
 Theorem C15_no_panic : forall progs script cfok c, reach false progs script cfok c -> w_panic (glob c) = false.
